@@ -86,10 +86,11 @@ PROPS = {
         'explanation': 'BIP143 contract',
     },
     'C05': {
-        'modules': ['contracts.c05'],
+        'modules': ['contracts.c05', 'contracts.c03'],
         'level': 'other',
         'trusted_base': COMMON_TB,
         'assumptions': [
+            "added after seeding round 7: the C03 units raw_sighash_is_reference and raw_sighash_after_edit (legacy digest = reference algorithm, also for transactions that carry witness data and for a transaction hashed before and edited since) are part of this check, since 'what the hash type commits to' is judged by that digest",
             "added after seeding round 5 (BOUNDED): the edit catalogue contains 'the same scriptSig sits in another input', asked directly after the signed input was verified; verify_signature_against_funding_tx runs VerifySignature against funding transactions with witness data",
             'OpenSSL signs and verifies; SHA-256 collision freedom (an edit that changes the reference digest is taken to '
             'invalidate the signature)',
@@ -180,10 +181,11 @@ PROPS = {
         'explanation': 'script contracts',
     },
     'C09': {
-        'modules': ['contracts.c09'],
+        'modules': ['contracts.c09', 'contracts.c03'],
         'level': 'proof',
         'trusted_base': COMMON_TB,
         'assumptions': [
+            'added after seeding round 7: the C03 unit raw_sighash_after_edit (BOUNDED: a mutable transaction that was signature-hashed, edited in a non-scriptSig field and hashed again, with nothing hashed in between) is part of this check - a digest remembered per object is a stale identity',
             'added after seeding round 6: freeze_tx_tuples_2_1 - the immutable snapshot freezes element by element also when the mutable transaction holds its inputs/outputs in tuples',
             'heap model: objects passed with heap=True are separate heap cells; lists of heap objects only with a concrete '
             'length (copy-constructor and signature-hash frame contracts are for 2 inputs and 1 output)',
@@ -212,6 +214,7 @@ PROPS = {
         'level': 'other',
         'trusted_base': COMMON_TB,
         'assumptions': [
+            'added after seeding round 7 (BOUNDED): str_decodes_back_after_others - the text of (version, payload) right after the text of the same payload under another version was produced; foreign characters that alias an alphabet character under a lossy lookup (same low byte, same low 16 bits, full-width form, other case). A target wrapped by a decorator object (functools.lru_cache) yields NO obligations (unit undecided); run-time evaluation calls the wrapped callable as the class holds it',
             'BOUNDED, not proved: bitcoin.base58.encode/decode equal the reference big-integer definition and are mutually inverse (600 generated inputs per run in the quick tier, 6000 in the thorough tier: leading-zero patterns, lengths 0..300, one-character alphabet violations); the hex built-ins (hexlify, int(.,16), %x, unhexlify) they are written with are outside the engine',
             'the Base58Check layer is proved over the codec as an uninterpreted pair of functions b58enc/b58dec (no inverse property is assumed by the proved units)',
             'SHA-256 uninterpreted',
@@ -289,6 +292,7 @@ PROPS = {
         'level': 'other',
         'trusted_base': COMMON_TB,
         'assumptions': [
+            'added after seeding round 7 (BOUNDED): reframe_after_edit - a message framed before, given new field values (shorter ones among them) and framed again equals the frame of a never-framed message with the same fields, 400 per chain and run',
             'PROVED part: framing of ping/pong/verack/getaddr/mempool under each chain; header handling of stream_deserialize on an arbitrary stream for frames whose command is not one of the seventeen known ones (the dispatch into the per-type parsers is not under contract)',
             'BOUNDED: per-type payload layout and parse/re-frame round trip for all seventeen types, streams of 1-3 frames, 400 generated streams per chain and run; judged by byte-identical re-framing and the header layout spec, not by an independent payload encoder',
             'msg_version: only protocol versions >= 209 are generated (msg_ser writes fields that older versions do not carry); fRelay is generated true (at versions below 70001 the flag is written but not read back - recorded as an observation in DESIGN.md, not exercised by the check)',
